@@ -411,7 +411,11 @@ func (g *pathGen) anyLevel() string {
 	if g.chance(0.25) {
 		return g.kw("last")
 	}
-	return g.pick("0", "1", "2", "3", "10", "0x2", "1_0", "0b11", "0o7", "4294967294", "4294967295", "4294967296", "9223372036854775807", "99999999999999999999")
+	if g.chance(0.08) {
+		// out of range for a level (an error since the level goes through ParseInt(lit, 0, 32))
+		return g.pick("2147483648", "4294967294", "4294967295", "4294967296", "9223372036854775807", "99999999999999999999", "0x80000000")
+	}
+	return g.pick("0", "1", "2", "3", "10", "0x2", "1_0", "0b11", "0o7", "0X1f", "1_000", "2147483647", "0x7fff_ffff")
 }
 
 var methodNamesPlain = []string{"abs", "size", "type", "floor", "double", "ceiling", "keyvalue", "bigint", "boolean", "integer", "number", "string"}
